@@ -17,9 +17,9 @@ use crate::engine::{explore, guarded, hex, show, validate_traces, Limits, Report
 use crate::refmodel::head;
 use crate::refmodel::reqvalid::{self, ReqFacts};
 
-pub const RULE: &str = "requests: methods {GET,HEAD,POST,PUT,DELETE,OPTIONS} x versions {1.0,1.1} x original header lists of length 0..=1 (thorough 0..=2) x caller-added lists of length 0..=2 over the pool {host, content-length: 3, transfer-encoding: chunked, x-a: 1, x-a: 2 (repeated name), x-bin: <0x80 0xff>, cookie, connection: close} (at most one of Content-Length / Transfer-Encoding) x send-body-despite-method {no,yes}, URIs with and without path/query/port; long requests with n added (0,1,2,59,60; thorough every n in 0..=60) and m in {0,1,5} original headers; flows at redirect depth 1..3 (states of a redirect-chain graph, with 0/1 added headers); only requests the validity model accepts; front ends Flow::<SendRequest>, Call::<WithoutBody>, Call::<WithBody>. Per request the COMPLETE graph of the writer: from every reachable state write(out) for EVERY out in 0..=|head|+1, and again in the completed state. distinct = distinct (request, front end) graphs";
+pub const RULE: &str = "requests: methods {GET,HEAD,POST,PUT,DELETE,OPTIONS} x versions {1.0,1.1} x original header lists of length 0..=1 (thorough 0..=2) x caller-added lists of length 0..=2 over the pool {host, content-length: 3, transfer-encoding: chunked, transfer-encoding: Chunked (mixed case), x-a: 1, x-a: 2 (repeated name), x-bin: <0x80 0xff>, cookie, connection: close} (at most one of Content-Length / Transfer-Encoding) x send-body-despite-method {no,yes}, URIs with and without path/query/port; long requests with n added (0,1,2,59,60; thorough every n in 0..=60) and m in {0,1,5} original headers; flows at redirect depth 1..3 (states of a redirect-chain graph, with 0/1 added headers); only requests the validity model accepts; front ends Flow::<SendRequest>, Call::<WithoutBody>, Call::<WithBody>. Per request the COMPLETE graph of the writer: from every reachable state write(out) for EVERY out in 0..=|head|+1, and again in the completed state. distinct = distinct (request, front end) graphs";
 
-const POOL: [(&str, &[u8]); 8] = [("host", b"h.test"), ("content-length", b"3"), ("transfer-encoding", b"chunked"), ("x-a", b"1"), ("x-a", b"2"), ("x-bin", b"\x80\xff"), ("cookie", b"c=1"), ("connection", b"close")];
+const POOL: [(&str, &[u8]); 9] = [("host", b"h.test"), ("content-length", b"3"), ("transfer-encoding", b"chunked"), ("transfer-encoding", b"Chunked"), ("x-a", b"1"), ("x-a", b"2"), ("x-bin", b"\x80\xff"), ("cookie", b"c=1"), ("connection", b"close")];
 
 #[derive(Clone)]
 enum W {
